@@ -127,12 +127,12 @@ set (C10-3 had become a miss through masking), per-branch knowledge in the lexer
 Round 4 (small slips; four of sixteen were first MISSED, i.e. exit 0 on a tree that breaks the property): the define table handed
 to and taken back from an included file is a premise of C04 as well (C04-7 was only reported under C10/C11), `into_locate`
 is part of C06 (C06-7 was only reported under C01), gvc.shadow - an alternative of an ordered choice whose literal has an earlier
-literal of the same `alt` as a prefix can never be taken (C11-7: `tag("\\\r")` before `tag("\\\r\n")` in `macro_text`), and
+literal of the same `alt` as a prefix can never be taken (C11-7: backslash-CR tried before backslash-CR-LF in `macro_text`), and
 the remaining input must be threaded through every step of a production (C15-8: `let (_, b) = ..(s)?` in
 `source_text_incomplete` parses the same text twice; now a failure of gvc.top for C15 and of the faithfulness lemma for C01);
 `first()` next to `last()` on the version stack (C13-7).
-Round 5 (small slips, the other nine properties; 6 of 20 first MISSED), round 6 (indirect dependencies; 11 of 30 first MISSED) and
-round 7 (data and metadata; see the count in 10.3e):
+Round 5 (small slips, the other nine properties; 6 of 18 first MISSED), round 6 (indirect dependencies; 12 of 30 first MISSED),
+round 7 (data and metadata; 8 of 34 first MISSED) and round 8 (rarely executed code and boundary cases; R8MISS first MISSED):
 see section 10.3e for the obligations they led to - gvc.kwsites, the dual obligation of gvc.pptotal, the C18 projection of
 `split_text`, once-initialised statics, the capacity of the recursion-flag table read from Cargo.toml, the span / line projections of
 the derive-generated `Locate` fold and `Locate::str` as premises of every arms-based property, conditional selection under C11,
